@@ -338,6 +338,10 @@ class C03Counts(Monitor):
                 self.v("minimize(maxfun=N) invoked fun more than N times", maxfun=mf, calls=len(ctx.log))
             if mf is not None and len(ctx.log) == mf:
                 self.cov("minimize_budget_exhausted")
+        if tree is not None:
+            for d in self.all_demes(tree):
+                if type(d).__name__ == "LocalDeme" and d.metaepoch_count >= 1 and len(d.history[-1]) == 0:
+                    self.cov("local_deme_without_any_iteration")
         if self.multi >= 10:
             from ..gen import engine_mix
 
